@@ -622,7 +622,7 @@ theorem AnnInv.closed : Closed Wf AnnInv where
   fdtAdvance := fun _ _ now hw h _ hs => h.ofFdtAdvance now hw hs
   fileStart := fun _ _ _ _ tk _ hw h _ hfn => h.ofFileStart tk hw hfn
   pkt := fun _ _ _ _ now _ idx b e hw h hq _ hfq _ _ => h.ofPkt now idx b e hw hq hfq
-  done := fun _ _ _ _ now _ _ _ h _ _ _ _ _ => h.ofDone now
+  done := fun _ _ _ _ now _ _ _ h _ _ _ => h.ofDone now
   fdtPkt := fun _ _ _ _ _ _ _ _ hw h _ hc hf _ he => h.ofFdtPkt hw hc hf he
   fdtDone := fun _ _ _ _ _ _ hw h _ hc hf _ he => h.ofFdtDone hw hc hf he
 
